@@ -515,6 +515,9 @@ enum WStep {
     Remove(String),
     SetState(String, u32),
     FlushFile,
+    /// The next API call that fails is not repeated at once: these steps (work on other
+    /// streams, each with its own retries) are run first, then the failed call is repeated.
+    Interlude(Vec<WStep>),
     /// Faults are only enumerated at underlying calls made after this point (the part
     /// before it is a fixed preamble that the other families already sweep).
     Marker,
@@ -558,6 +561,86 @@ fn build_write_script(rng: &mut Rng, w: u64) -> Vec<WStep> {
         s.push(WStep::OpenNew { slot: 0, path: "/u".into() });
         s.push(WStep::Write { slot: 0, len: 500 });
         s.push(WStep::CloseHandle { slot: 0 });
+        s.push(WStep::FlushFile);
+        return s;
+    }
+    if w % 16 == 2 || w % 16 == 11 {
+        // family G (version 3 for w = 2 mod 16, version 4 for w = 11 mod 16): a call that
+        // moves a stream between the mini stream and regular sectors, or releases its chain
+        // (a write-back across 4096 bytes, set_len across it in either direction, set_len(0),
+        // truncating re-creation), fails under the sweep; before it is repeated another small
+        // and another large stream are created, written and flushed (they may be given
+        // whatever the failed call released); both must still read back at the end
+        // five episodes in one workload, each on its own stream
+        for v in 0..5usize {
+            s.push(WStep::OpenNew { slot: 0, path: format!("/a{v}") });
+            let first: &[usize] = if v == 3 { &[1024, 1024, 1024, 1024, 904] } else { &[1024, 1024, 1024, 928] };
+            for l in first {
+                s.push(WStep::Write { slot: 0, len: *l });
+            }
+            s.push(WStep::CloseHandle { slot: 0 });
+        }
+        s.push(WStep::OpenNew { slot: 1, path: "/keep".into() });
+        s.push(WStep::Write { slot: 1, len: 300 });
+        s.push(WStep::CloseHandle { slot: 1 });
+        s.push(WStep::Marker);
+        let order: Vec<usize> = if (w / 16) % 2 == 0 { vec![0, 1, 2, 3, 4] } else { vec![4, 2, 3, 1, 0] };
+        for v in order {
+            let mut inter = Vec::new();
+            inter.push(WStep::OpenNew { slot: 1, path: format!("/b{v}") });
+            for l in [1024usize, 1024, 1024, 928] {
+                inter.push(WStep::Write { slot: 1, len: l });
+            }
+            inter.push(WStep::FlushHandle { slot: 1 });
+            inter.push(WStep::CloseHandle { slot: 1 });
+            inter.push(WStep::OpenNew { slot: 1, path: format!("/c{v}") });
+            for _ in 0..5 {
+                inter.push(WStep::Write { slot: 1, len: 1024 });
+            }
+            inter.push(WStep::FlushHandle { slot: 1 });
+            inter.push(WStep::CloseHandle { slot: 1 });
+            if v != 4 {
+                s.push(WStep::OpenExisting { slot: 0, path: format!("/a{v}") });
+            }
+            match v {
+                0 => {
+                    // a write-back that crosses the cutoff
+                    s.push(WStep::Seek { slot: 0, to: 4000 });
+                    s.push(WStep::Write { slot: 0, len: 200 });
+                    s.push(WStep::Interlude(inter));
+                    s.push(WStep::FlushHandle { slot: 0 });
+                }
+                1 => {
+                    s.push(WStep::Interlude(inter));
+                    s.push(WStep::SetLen { slot: 0, n: 6000 });
+                    s.push(WStep::FlushHandle { slot: 0 });
+                }
+                2 => {
+                    s.push(WStep::Interlude(inter));
+                    s.push(WStep::SetLen { slot: 0, n: 0 });
+                    s.push(WStep::FlushHandle { slot: 0 });
+                }
+                3 => {
+                    // (this stream is regular: 5000 bytes) back below the cutoff
+                    s.push(WStep::Interlude(inter));
+                    s.push(WStep::SetLen { slot: 0, n: 700 });
+                    s.push(WStep::FlushHandle { slot: 0 });
+                }
+                _ => {
+                    // truncating re-creation
+                    s.push(WStep::Interlude(inter));
+                    s.push(WStep::OpenNew { slot: 0, path: format!("/a{v}") });
+                    s.push(WStep::Write { slot: 0, len: 30 });
+                    s.push(WStep::FlushHandle { slot: 0 });
+                }
+            }
+            s.push(WStep::CloseHandle { slot: 0 });
+            s.push(WStep::Interlude(Vec::new()));
+        }
+        s.push(WStep::OpenNew { slot: 1, path: "/d".into() });
+        s.push(WStep::Write { slot: 1, len: 500 });
+        s.push(WStep::FlushHandle { slot: 1 });
+        s.push(WStep::CloseHandle { slot: 1 });
         s.push(WStep::FlushFile);
         return s;
     }
@@ -807,6 +890,10 @@ struct WState {
     /// strict mode accepts): what the library stores is then expected to stay acceptable
     /// to its own strict mode
     own_file: bool,
+    /// steps to run between the next failing call and its repetition
+    interlude: Option<Vec<WStep>>,
+    /// a call has failed and is not repeated yet (the interlude is running)
+    pending: bool,
 }
 
 fn w_step_name(s: &WStep) -> &'static str {
@@ -825,6 +912,7 @@ fn w_step_name(s: &WStep) -> &'static str {
         WStep::SetState(..) => "set_state_bits",
         WStep::FlushFile => "flush",
         WStep::Marker => "marker",
+        WStep::Interlude(_) => "interlude",
     }
 }
 
@@ -1022,14 +1110,14 @@ fn w_exec(st: &mut WState, step: &WStep, rep: &mut Report) -> Result<Result<(), 
                         let mut reopened = match CompoundFile::open(f2) {
                             Ok(cf2) => Some(cf2),
                             Err(e) => {
-                                if !st.unrecovered && !st.torn {
+                                if !st.unrecovered && !st.torn && !st.pending {
                                     return Err((format!("flush Ok | the stored file no longer opens | {}", crate::guard::strip_numbers(&e.to_string())), format!("{}: every failed call had succeeded on retry and Stream::flush returned Ok, but the stored bytes are rejected by open: {e}", h.path)));
                                 }
                                 rep.count("reopen_unavailable");
                                 None
                             }
                         };
-                        if reopened.is_some() && !st.unrecovered && !st.torn {
+                        if reopened.is_some() && !st.unrecovered && !st.torn && !st.pending {
                             rep.count("ok_flush_stored_file_opens");
                             // ... and not only by the lenient reader: every write that failed has been
                             // repeated, so the file the library wrote holds no field that a failed
@@ -1149,7 +1237,7 @@ fn w_exec(st: &mut WState, step: &WStep, rep: &mut Report) -> Result<Result<(), 
             r
         }
         WStep::FlushFile => st.cf.flush(),
-        WStep::Marker => Ok(()),
+        WStep::Marker | WStep::Interlude(_) => Ok(()),
     };
     // (1) the API call during which an underlying call failed must report an error
     let hits = st.shared.hits();
@@ -1341,7 +1429,7 @@ fn w_run_observed(script: &[WStep], version: Version, faults: Vec<Fault>, rep: &
     if let Some(n) = fault_free_calls {
         shared.set_step_budget(50 * n + 20_000);
     }
-    let mut st = WState { shared: shared.clone(), cf, handles: Vec::new(), api: 0, writes: 0, structure_tainted: false, unrecovered: false, torn, state_set: Vec::new(), durable: Vec::new(), own_file };
+    let mut st = WState { shared: shared.clone(), cf, handles: Vec::new(), api: 0, writes: 0, structure_tainted: false, unrecovered: false, torn, state_set: Vec::new(), durable: Vec::new(), own_file, interlude: None, pending: false };
     let kind_counts = |sh: &Shared| {
         // (numbered as the fault plan numbers them: the harness's own paused read-backs
         // do not count)
@@ -1356,6 +1444,10 @@ fn w_run_observed(script: &[WStep], version: Version, faults: Vec<Fault>, rep: &
             marker = [now[0] - at_arm[0], now[1] - at_arm[1], now[2] - at_arm[2]];
             continue;
         }
+        if let WStep::Interlude(steps) = step {
+            st.interlude = Some(steps.clone());
+            continue;
+        }
         let mut attempts = 0;
         loop {
             attempts += 1;
@@ -1368,6 +1460,12 @@ fn w_run_observed(script: &[WStep], version: Version, faults: Vec<Fault>, rep: &
                 Ok(()) => {
                     if attempts > 1 {
                         rep.count("retries_that_succeeded");
+                        // a structural call that failed and has now succeeded: the tree is
+                        // known again (the object exists and is empty / is gone)
+                        if !st.unrecovered && matches!(step, WStep::CreateStorage(_) | WStep::OpenNew { .. } | WStep::Remove(_)) {
+                            st.structure_tainted = false;
+                            rep.count("structural_calls_recovered");
+                        }
                     }
                     break;
                 }
@@ -1382,6 +1480,27 @@ fn w_run_observed(script: &[WStep], version: Version, faults: Vec<Fault>, rep: &
                     if attempts >= 3 || give_up {
                         st.unrecovered = true;
                         break;
+                    }
+                    // other work between the failure and the repetition
+                    if let Some(steps) = st.interlude.take() {
+                        rep.count("interludes_run");
+                        st.pending = true;
+                        for istep in &steps {
+                            let mut n = 0;
+                            loop {
+                                n += 1;
+                                match w_exec(&mut st, istep, rep)? {
+                                    Ok(()) => break,
+                                    Err(_) => {
+                                        if n >= 3 {
+                                            st.unrecovered = true;
+                                            break;
+                                        }
+                                    }
+                                }
+                            }
+                        }
+                        st.pending = false;
                     }
                 }
             }
